@@ -9,49 +9,56 @@
 From Coq Require Import Reals List Arith.
 From SK Require Import Gen.KernelsR Proofs.RealLib Proofs.ScoreKernels.
 Import ListNotations.
+From SK Require Import Check.KernelCheck Proofs.CheckerSoundness.
 
 
-Theorem C06_change_score_is_cost_difference : forall (C : nat -> nat -> R) (s k e : nat), change_score C s k e = C s e - (C s k + C k e).
+Theorem C06_change_score_is_cost_difference : forall (C : nat -> nat -> R) (s k e : nat), change_score C s k e = (C s e - (C s k + C k e))%R.
 Proof. exact @change_score_def. Qed.
 
-Theorem C06_saving_is_cost_difference : forall (Cf Co : nat -> nat -> R) (s e : nat), saving Cf Co s e = Cf s e - Co s e.
+Theorem C06_saving_is_cost_difference : forall (Cf Co : nat -> nat -> R) (s e : nat), saving Cf Co s e = (Cf s e - Co s e)%R.
 Proof. exact @saving_def. Qed.
 
-Theorem C06_local_score_is_cost_difference : forall (C : nat -> nat -> R) (Cpool : R) (s a b e : nat), local_score C Cpool s a b e = C s e - (C a b + Cpool).
+Theorem C06_local_score_is_cost_difference : forall (C : nat -> nat -> R) (Cpool : R) (s a b e : nat), local_score C Cpool s a b e = (C s e - (C a b + Cpool))%R.
 Proof. exact @local_score_def. Qed.
 
-Theorem C06_change_score_nonneg_when_split_holds : forall (C : nat -> nat -> R) (s k e : nat), C s k + C k e <= C s e -> 0 <= change_score C s k e.
+Theorem C06_change_score_nonneg_when_split_holds : forall (C : nat -> nat -> R) (s k e : nat), (C s k + C k e <= C s e)%R -> (0 <= change_score C s k e)%R.
 Proof. exact @change_score_nonneg_of_split. Qed.
 
-Theorem C06_saving_nonneg_when_optim_le_fixed : forall (Cf Co : nat -> nat -> R) (s e : nat), Co s e <= Cf s e -> 0 <= saving Cf Co s e.
+Theorem C06_saving_nonneg_when_optim_le_fixed : forall (Cf Co : nat -> nat -> R) (s e : nat), (Co s e <= Cf s e)%R -> (0 <= saving Cf Co s e)%R.
 Proof. exact @saving_nonneg_of_optim_le_fixed. Qed.
 
-Theorem C06_local_score_nonneg_when_split_holds : forall (C : nat -> nat -> R) (Cpool : R) (s a b e : nat), C a b + Cpool <= C s e -> 0 <= local_score C Cpool s a b e.
+Theorem C06_local_score_nonneg_when_split_holds : forall (C : nat -> nat -> R) (Cpool : R) (s a b e : nat), (C a b + Cpool <= C s e)%R -> (0 <= local_score C Cpool s a b e)%R.
 Proof. exact @local_score_nonneg_of_split. Qed.
 
-Theorem C06_squared_cusum_is_l2_change_score : forall (S1 S2 : nat -> R) (s k e : nat), (s < k)%nat -> (k < e)%nat -> cusum_score_R S1 s k e ^ 2 = change_score (l2_cost_optim_R S1 S2) s k e.
+Theorem C06_squared_cusum_is_l2_change_score : forall (S1 S2 : nat -> R) (s k e : nat), (s < k)%nat -> (k < e)%nat -> (cusum_score_R S1 s k e ^ 2)%R = change_score (l2_cost_optim_R S1 S2) s k e.
 Proof. exact @cusum_sq_is_l2_change_score. Qed.
 
 Theorem C06_l2_saving_is_saving_of_l2_cost_at_zero : forall (S1 S2 : nat -> R) (s e : nat), (s < e)%nat -> l2_saving_R S1 s e = saving (l2_cost_fixed_R S1 S2 0) (l2_cost_optim_R S1 S2) s e.
 Proof. exact @l2_saving_is_saving_of_l2. Qed.
 
-Theorem C06_l2_optim_le_fixed : forall (S1 S2 : nat -> R) (mu : R) (s e : nat), (s < e)%nat -> l2_cost_optim_R S1 S2 s e <= l2_cost_fixed_R S1 S2 mu s e.
+Theorem C06_l2_optim_le_fixed : forall (S1 S2 : nat -> R) (mu : R) (s e : nat), (s < e)%nat -> (l2_cost_optim_R S1 S2 s e <= l2_cost_fixed_R S1 S2 mu s e)%R.
 Proof. exact @l2_optim_le_fixed. Qed.
 
-Theorem C06_l2_split_never_increases : forall (S1 S2 : nat -> R) (s k e : nat), (s < k)%nat -> (k < e)%nat -> l2_cost_optim_R S1 S2 s k + l2_cost_optim_R S1 S2 k e <= l2_cost_optim_R S1 S2 s e.
+Theorem C06_l2_split_never_increases : forall (S1 S2 : nat -> R) (s k e : nat), (s < k)%nat -> (k < e)%nat -> (l2_cost_optim_R S1 S2 s k + l2_cost_optim_R S1 S2 k e <= l2_cost_optim_R S1 S2 s e)%R.
 Proof. exact @l2_split. Qed.
 
-Theorem C06_l2_optim_nonneg : forall (xs : list R) (s e : nat), (s < e)%nat -> (e <= length xs)%nat -> 0 <= l2_cost_optim_R (prefix xs) (prefix (sq xs)) s e.
+Theorem C06_l2_optim_nonneg : forall (xs : list R) (s e : nat), (s < e)%nat -> (e <= length xs)%nat -> (0 <= l2_cost_optim_R (prefix xs) (prefix (sq xs)) s e)%R.
 Proof. exact @l2_optim_nonneg. Qed.
 
-Theorem C06_gaussian_optim_le_fixed : forall (S1 S2 : nat -> R) (mu v : R) (s e : nat), (s < e)%nat -> floor_var <= V S1 S2 s e -> 0 < v -> gaussian_var_cost_optim_R S1 S2 s e <= gaussian_var_cost_fixed_R S1 S2 mu v s e.
+Theorem C06_gaussian_optim_le_fixed : forall (S1 S2 : nat -> R) (mu v : R) (s e : nat), (s < e)%nat -> (floor_var <= V S1 S2 s e)%R -> (0 < v)%R -> (gaussian_var_cost_optim_R S1 S2 s e <= gaussian_var_cost_fixed_R S1 S2 mu v s e)%R.
 Proof. exact @gvar_optim_le_fixed. Qed.
 
-Theorem C06_gaussian_split_never_increases : forall (S1 S2 : nat -> R) (s k e : nat), (s < k)%nat -> (k < e)%nat -> floor_var <= V S1 S2 s k -> floor_var <= V S1 S2 k e -> floor_var <= V S1 S2 s e -> gaussian_var_cost_optim_R S1 S2 s k + gaussian_var_cost_optim_R S1 S2 k e <= gaussian_var_cost_optim_R S1 S2 s e.
+Theorem C06_gaussian_split_never_increases : forall (S1 S2 : nat -> R) (s k e : nat), (s < k)%nat -> (k < e)%nat -> (floor_var <= V S1 S2 s k)%R -> (floor_var <= V S1 S2 k e)%R -> (floor_var <= V S1 S2 s e)%R -> (gaussian_var_cost_optim_R S1 S2 s k + gaussian_var_cost_optim_R S1 S2 k e <= gaussian_var_cost_optim_R S1 S2 s e)%R.
 Proof. exact @gvar_split. Qed.
 
-Theorem C06_variance_floor : forall (S1 S2 : nat -> R) (s e : nat), (s < e)%nat -> floor_var <= var_from_sums_R S1 S2 s e.
+Theorem C06_variance_floor : forall (S1 S2 : nat -> R) (s e : nat), (s < e)%nat -> (floor_var <= var_from_sums_R S1 S2 s e)%R.
 Proof. exact @var_from_sums_ge_floor. Qed.
+
+Theorem C06_adapter_checker_sound : forall c : ad_case, ad_ok c = true -> match c with | AdChange c_se c_sk c_ke impl => impl = c_se - (c_sk + c_ke) | AdSaving c_fixed c_optim impl => impl = c_fixed - c_optim | AdLocal c_se c_ab c_pool impl => impl = c_se - (c_ab + c_pool) end.
+Proof. exact @ad_ok_sound. Qed.
+
+Theorem C06_twin_checker_sound : forall c : kq_case, kq_ok c = true -> QArith_base.Qle (kq_lo c) (kq_value c) /\ QArith_base.Qle (kq_value c) (kq_hi c) /\ QArith_base.Qeq (kq_value c) (kq_direct c).
+Proof. exact @kq_ok_sound. Qed.
 
 Print Assumptions C06_change_score_is_cost_difference.
 Print Assumptions C06_saving_is_cost_difference.
@@ -67,3 +74,5 @@ Print Assumptions C06_l2_optim_nonneg.
 Print Assumptions C06_gaussian_optim_le_fixed.
 Print Assumptions C06_gaussian_split_never_increases.
 Print Assumptions C06_variance_floor.
+Print Assumptions C06_adapter_checker_sound.
+Print Assumptions C06_twin_checker_sound.
